@@ -311,6 +311,20 @@ func c04(r *Report) {
 						if l == dialled {
 							returnsIt = true
 						}
+						// handed back inside a wrapper (e.g. one that replays buffered bytes)
+						if mi, isMI := l.(*ssa.MakeInterface); isMI {
+							if a, isA := mi.X.(*ssa.Alloc); isA {
+								for _, sts := range litFieldStores(a) {
+									for _, st := range sts {
+										if st.Val == dialled {
+											returnsIt = true
+											hasCW := types.NewMethodSet(a.Type()).Lookup(conn.Pkg.Pkg, "CloseWrite") != nil
+											r.Decide("sibling", fmt.Sprintf("(*M.Proxy).connect: the wrapper around dialled connection #%d can still half-close", ordinalDyn(conn, c)), hasCW, "the wrapper type has a CloseWrite method", fmt.Sprintf("the connection is handed to the tunnel inside %s, which has no CloseWrite: the tunnel can no longer pass on one direction's end of stream without closing the other, so a peer that half-closes loses the answer", short(a.Type().String())), ret.Pos())
+										}
+									}
+								}
+							}
+						}
 					}
 				}
 				if returnsIt {
